@@ -168,6 +168,19 @@ def qtok(x):
     return [f.numerator, f.denominator]
 
 
+def jsonable(x):
+    """Recursively make a value JSON-serialisable (tuple keys -> str, sets -> sorted lists, ...)."""
+    if isinstance(x, dict):
+        return {(k if isinstance(k, (str, int, float, bool)) or k is None else str(k)): jsonable(v) for k, v in x.items()}
+    if isinstance(x, (list, tuple)):
+        return [jsonable(v) for v in x]
+    if isinstance(x, (set, frozenset)):
+        return sorted((jsonable(v) for v in x), key=repr)
+    if isinstance(x, (str, int, float, bool)) or x is None:
+        return x
+    return str(x)
+
+
 # ----------------------------------------------------------------------------- context
 class Ctx:
     def __init__(self, pid, tier, seed):
@@ -205,9 +218,9 @@ class Ctx:
         """Register one evaluated case; canon = canonical (hashable/jsonable) form."""
         self.evaluations += 1
         if nontrivial:
-            self.nontrivial.add(hashlib.sha1(json.dumps(canon, sort_keys=True, default=str).encode()).hexdigest())
+            self.nontrivial.add(hashlib.sha1(json.dumps(jsonable(canon), sort_keys=True, default=str).encode()).hexdigest())
         if sample is not None and len(self.samples) < 6:
-            self.samples.append(sample)
+            self.samples.append(jsonable(sample))
 
     # -- findings ---------------------------------------------------------------
     def open_finding(self, key):
@@ -227,12 +240,14 @@ class Ctx:
                     self.known_hits[key] = k.get("what", what)
                 self.count("known_findings", key)
                 return
-        if len(self.violations) >= 25:
+        # keep the output readable: at most 8 concrete and 4 correspondence-only reports per run
+        if sum(1 for v in self.violations if v["concrete"] == concrete) >= (8 if concrete else 4):
+            self.count("suppressed_reports", "concrete" if concrete else "correspondence")
             return
         d = os.path.join(ROOT, "replays", self.pid)
         os.makedirs(d, exist_ok=True)
-        body = {"property": self.pid, "what": what, "concrete_failing_input": concrete, "key": key, "replay": replay,
-                "seed": self.seed, "tier": self.tier}
+        body = jsonable({"property": self.pid, "what": what, "concrete_failing_input": concrete, "key": key, "replay": replay,
+                         "seed": self.seed, "tier": self.tier})
         h = hashlib.sha1(json.dumps(body, sort_keys=True, default=str).encode()).hexdigest()[:12]
         path = os.path.join(d, h + ".json")
         json.dump(body, open(path, "w"), indent=1, default=str)
@@ -266,7 +281,10 @@ class Ctx:
         json.dump(ev, open(os.path.join(ROOT, "evidence", self.pid + ".json"), "w"), indent=1, default=str)
         for key, what in self.known_hits.items():
             print(f"KNOWN-FINDING: property={self.pid} {key}: {what}")
-        for v in self.violations:
+        have_concrete = any(v["concrete"] for v in self.violations)
+        for v in sorted(self.violations, key=lambda v: not v["concrete"]):
+            if have_concrete and not v["concrete"]:
+                continue        # a failing input was found: the broken correspondence is explained by it
             tail = "" if v["concrete"] else " no-failing-input-found"
             print(f"VIOLATION property={self.pid} replay={v['path']}{tail}")
         print(f"[{self.pid}] tier={self.tier} seed={self.seed} obligations={n_dis}/{n_obl} evaluations={self.evaluations} "
